@@ -12,7 +12,9 @@ use std::mem;
 
 verus! {
 
+//@keep-cfg statistics
 //@include _shared/handler_prelude.rs
+//@include _shared/statistics_items.rs
 opaque!(Object);
 opaque!(Service);
 opaque!(PendingFunctionCall);
@@ -93,6 +95,7 @@ opaque!(Channel);
 
 impl Broker {
     //@include _shared/bl_inv.rs
+    //@include _shared/statistics_specs.rs
     // the listener `c` exists and belongs to connection `id`
     spec fn owns(&self, id: &ConnectionId, c: BusListenerCookie) -> bool {
         self.bus_listeners@.contains_key(c) && self.bus_listeners@[c].conn_id.id() == id.id()
@@ -116,6 +119,12 @@ impl Broker {
                     final(self).conns@[k] == old(self).conns@[k]
                 }
             },
+            // statistics: the listener counter follows the listener table, the other counters are untouched
+            old(self).stat_listeners_ok() ==> final(self).stat_listeners_ok(),
+            final(self).statistics.num_connections == old(self).statistics.num_connections,
+            final(self).statistics.num_objects == old(self).statistics.num_objects,
+            final(self).statistics.num_services == old(self).statistics.num_services,
+            final(self).statistics.num_channels == old(self).statistics.num_channels,
     //@end
 
     //@fn broker/src/broker.rs Broker::destroy_bus_listener
@@ -133,6 +142,12 @@ impl Broker {
                 ||| final(self).bus_listeners@ == old(self).bus_listeners@.remove(req.cookie)
                 ||| (r is Err && final(self).bus_listeners@ == old(self).bus_listeners@ && final(self).conns@ == old(self).conns@)
             },
+            // statistics: the listener counter follows the listener table, the other counters are untouched
+            old(self).stat_listeners_ok() ==> final(self).stat_listeners_ok(),
+            final(self).statistics.num_connections == old(self).statistics.num_connections,
+            final(self).statistics.num_objects == old(self).statistics.num_objects,
+            final(self).statistics.num_services == old(self).statistics.num_services,
+            final(self).statistics.num_channels == old(self).statistics.num_channels,
     //@end
 
     //@fn broker/src/broker.rs Broker::stop_bus_listener
@@ -153,6 +168,7 @@ impl Broker {
                 &&& final(self).bus_listeners@[req.cookie].filters == old(self).bus_listeners@[req.cookie].filters
                 &&& final(self).bus_listeners@[req.cookie].conn_id == old(self).bus_listeners@[req.cookie].conn_id
             },
+            final(self).stat_same(old(self)),   // no counter is touched
     //@end
 
     //@fn broker/src/broker.rs Broker::add_bus_listener_filter
@@ -170,6 +186,7 @@ impl Broker {
                 &&& final(self).bus_listeners@[req.cookie].filters@ == old(self).bus_listeners@[req.cookie].filters@.insert(req.filter)
                 &&& final(self).bus_listeners@[req.cookie].scope == old(self).bus_listeners@[req.cookie].scope
             },
+            final(self).stat_same(old(self)),   // no counter is touched
     //@end
 
     //@fn broker/src/broker.rs Broker::remove_bus_listener_filter
@@ -187,6 +204,7 @@ impl Broker {
                 &&& final(self).bus_listeners@[req.cookie].filters@ == old(self).bus_listeners@[req.cookie].filters@.remove(req.filter)
                 &&& final(self).bus_listeners@[req.cookie].scope == old(self).bus_listeners@[req.cookie].scope
             },
+            final(self).stat_same(old(self)),   // no counter is touched
     //@end
 
     //@fn broker/src/broker.rs Broker::clear_bus_listener_filters
@@ -204,6 +222,7 @@ impl Broker {
                 &&& final(self).bus_listeners@[req.cookie].filters@ == Set::<BusListenerFilter>::empty()
                 &&& final(self).bus_listeners@[req.cookie].scope == old(self).bus_listeners@[req.cookie].scope
             },
+            final(self).stat_same(old(self)),   // no counter is touched
     //@end
 
     // ---- create_bus_listener ------------------------------------------------------------------------------------------
@@ -232,6 +251,12 @@ impl Broker {
                         &&& forall|k: ConnectionId| #![trigger final(self).conns@[k]] old(self).conns@.contains_key(k) && k != *id ==> final(self).conns@[k] == old(self).conns@[k]
                     })
             },
+            // statistics (exact below usize::MAX entries)
+            old(self).stat_listeners_ok() && old(self).bus_listeners@.len() < usize::MAX ==> final(self).stat_listeners_ok(),
+            final(self).statistics.num_connections == old(self).statistics.num_connections,
+            final(self).statistics.num_objects == old(self).statistics.num_objects,
+            final(self).statistics.num_services == old(self).statistics.num_services,
+            final(self).statistics.num_channels == old(self).statistics.num_channels,
     //@ghost after `let cookie = BusListenerCookie::new_v4();`
         // ASSUMPTION (random UUIDv4): the new cookie is not the cookie of a live listener
         proof { assume(!self.bus_listeners@.contains_key(cookie)); }
